@@ -34,7 +34,7 @@ REQUIRED_BUCKETS = ["first-samples-as-a-burst-just-before-a-tick", "alignment-po
                     "align:none", "align:epoch", "align:past-nonmultiple", "align:future", "creation-exactly-aligned",
                     "creation-1us-off", "align_to-in-non-utc-timezone", "align_to-in-daylight-saving-zone", "resampling-function-yields-NaN-for-some-ticks", "latency>=1period", "latency-several-periods", "series-added-between-ticks",
                     "series-added-during-slow-tick", "catch-up-observed", "multi-series", "actor-tier",
-                    "actor-tier:timer-late>=1period", "series-ended:SourceStoppedError", "slow-sink-takes-the-sample-late",
+                    "actor-tier:timer-late>=1period", "actor-tier:source-of-one-metric-ended", "actor-tier:request-repeated-later", "series-ended:SourceStoppedError", "slow-sink-takes-the-sample-late",
                     "series-ended:remove_timeseries", "moving-window-tier", "moving-window-tier:align:none",
                     "moving-window-tier:align:offset", "moving-window-tier:stopped-and-started-again",
                     "moving-window-tier:restart-then-late-timer"]
@@ -173,7 +173,23 @@ def gen_actor(rng: Any) -> dict[str, Any]:
     busy = [[round(rng.uniform(1, ticks - 4) * period, 6), rng.choice([0.3, 1.0, 1.000001, 2.2, 3.7]) * period]
             for _ in range(rng.randint(0, 3))]
     busy.sort()
-    return {"tier": "actor", "period": period, "ticks": ticks, "requests": reqs, "busy": busy,
+    ends: list[list[Any]] = []
+    if nreq >= 2 and rng.random() < 0.4:
+        # the data source of one metric ends while the others go on (the actor removes that series); later a request
+        # for a metric that is still being resampled is repeated
+        v = rng.randrange(nreq)
+        at_end = round(reqs[v][0] + rng.uniform(3, 6) * period, 6)
+        # (another series is live across the end: with no series at all there is no timeline to observe)
+        others = [r for r in reqs if r[1] != reqs[v][1] and r[0] < at_end - 2 * period]
+        if at_end < (ticks - 6) * period and others:
+            ends.append([at_end, reqs[v][1]])
+            o = rng.choice(others)
+            reqs.append([round(at_end + rng.uniform(2, 4) * period, 6), o[1], False])
+    elif rng.random() < 0.3:
+        o = rng.choice(reqs)
+        reqs.append([round(o[0] + rng.uniform(2, 6) * period, 6), o[1], False])  # a late repetition of a request
+    reqs.sort()
+    return {"tier": "actor", "period": period, "ticks": ticks, "requests": reqs, "busy": busy, "source_ends": ends,
             "start_offset": round(rng.choice([0.0, 0.3, 0.999999]) * period + rng.randint(0, 20) * period, 6)}
 
 
@@ -216,9 +232,25 @@ async def _drive_actor_tier(case: dict[str, Any], out: dict[str, Any]) -> None:
             k += 1
             await asyncio.sleep(p * 0.37)
 
+    feeder_of: dict[int, Any] = {}
+
     async def data_sourcing() -> None:
         async for req in ds_rx:  # what the DataSourcingActor would do: start streaming on the ':Source' channel
             feeders.append(asyncio.create_task(feed(req.component_id, req.get_channel_name())))
+            feeder_of[req.component_id] = (feeders[-1], req.get_channel_name())
+
+    async def end_sources() -> None:
+        for at, cid in case.get("source_ends", []):
+            dt = t0 + at - loop.time()
+            if dt > 0:
+                await asyncio.sleep(dt)
+            if cid in feeder_of:
+                task, name = feeder_of[cid]
+                task.cancel()
+                await reg.get_or_create(Sample[Quantity], name).close()
+                out.setdefault("ended", {})[cid] = datetime.now(timezone.utc)
+
+    end_task = asyncio.create_task(end_sources())
 
     ds_task = asyncio.create_task(data_sourcing())
 
@@ -262,6 +294,7 @@ async def _drive_actor_tier(case: dict[str, Any], out: dict[str, Any]) -> None:
         f.cancel()
     ds_task.cancel()
     busy_task.cancel()
+    end_task.cancel()
     await actor.stop()
 
 
@@ -272,6 +305,11 @@ def check_actor_tier(case: dict[str, Any], rec: Any) -> None:
     run_virtual(lambda: _drive_actor_tier(case, out), start_offset=case["start_offset"])
     rec.bucket("actor-tier")
     rec.count("runs")
+    seen_req: dict[int, float] = {}
+    for at, cid, _dup in case["requests"]:
+        if cid in seen_req and at > seen_req[cid]:
+            rec.bucket("actor-tier:request-repeated-later")
+        seen_req.setdefault(cid, at)
     p = case["period"]
     per = timedelta(seconds=p)
     if any(d >= p for _, d in case["busy"]):
@@ -299,11 +337,21 @@ def check_actor_tier(case: dict[str, Any], rec: Any) -> None:
         if tss != sorted(set(tss)):
             rec.violation("series-timestamps-repeated-or-reordered", {**w0, "series": cid})
             continue
+        ended = out.get("ended", {}).get(cid)
+        # (ticks that are processed late - the loop was blocked - after the source has gone are not emitted any more)
+        slack = timedelta(seconds=sum(d for _, d in case["busy"]))  # (episodes can follow one another)
         if not tss:
-            rec.violation("series-never-received-a-sample", {**w0, "series": cid})
+            if ended is None or ended > s["requested_at"] + 3 * per + slack:
+                rec.violation("series-never-received-a-sample", {**w0, "series": cid, "source_ended": str(ended)})
             continue
         expect = [g for g in glob if g >= tss[0]]
-        if tss != expect and tss != expect[:-1]:
+        if ended is not None:
+            # the source of this series ended: a gap-free stretch of the shared timeline that reaches its end
+            rec.bucket("actor-tier:source-of-one-metric-ended")
+            if tss != expect[:len(tss)] or tss[-1] < ended - 2 * per - slack:
+                rec.violation("series-timestamps-not-shared-or-gapped", {**w0, "series": cid, "source_ended": str(ended),
+                                                                         "got": [str(t) for t in tss[:30]]})
+        elif tss != expect and tss != expect[:-1]:
             rec.violation("series-timestamps-not-shared-or-gapped", {**w0, "series": cid, "got": [str(t) for t in tss[:30]]})
         # a subscription is served from the current or the next tick (+ the busy time the loop was blocked)
         maxbusy = max([d for _, d in case["busy"]] or [0.0])
